@@ -47,6 +47,10 @@ pub trait VIterExt: Iterator + Sized {
         ensures r.items().len() == self.remaining().len(),
             forall|k: int| 0 <= k < self.remaining().len() ==> #[trigger] r.items()[k] == *self.remaining()[k];
     // Iterator::fold: the closure is applied to the items in order, threading the accumulator
+    // Iterator::copied (as cloned, for Copy types)
+    fn v_copied<'a, T: Copy + 'a>(self) -> (r: VSeqIter<T>) where Self: Iterator<Item = &'a T>
+        ensures r.items().len() == self.remaining().len(),
+            forall|k: int| 0 <= k < self.remaining().len() ==> #[trigger] r.items()[k] == *self.remaining()[k];
     fn v_fold<B, F: FnMut(B, Self::Item) -> B>(self, init: B, f: F) -> (r: B)
         requires forall|acc: B, x: Self::Item| #[trigger] f.requires((acc, x))
         ensures exists|accs: Seq<B>| fold_chain(accs, self.remaining(), init, f, r);
@@ -69,6 +73,8 @@ impl<I: Iterator> VIterExt for I {
     fn v_any<F: FnMut(Self::Item) -> bool>(self, f: F) -> (r: bool) { unimplemented!() }
     #[verifier::external_body]
     fn v_cloned<'a, T: Clone + 'a>(self) -> (r: VSeqIter<T>) where Self: Iterator<Item = &'a T> { unimplemented!() }
+    #[verifier::external_body]
+    fn v_copied<'a, T: Copy + 'a>(self) -> (r: VSeqIter<T>) where Self: Iterator<Item = &'a T> { unimplemented!() }
     #[verifier::external_body]
     fn v_fold<B, F: FnMut(B, Self::Item) -> B>(self, init: B, f: F) -> (r: B) { unimplemented!() }
 }
